@@ -126,6 +126,11 @@ def judge(case, ctx, prefix='C04'):
         ok = True
         for group in part:
             keep = [by_id[s].element for s in group]          # one shared list object for both calls
+            if case['split'] < 0.5:
+                # exemption list from an independently rebuilt copy of the description: equal elements, distinct objects
+                twin = {b.id: b for b in netdesc.to_lib(desc).branches}
+                keep = [twin[s].element for s in group]
+                ctx.count('keep_lists_of_equal_but_distinct_elements')
             z = call(trf.short_circuitify_voltage_sources, net, keep)
             z = call(trf.open_circuitify_current_sources, z, keep) if not raised(z) else z
             if raised(z):
